@@ -1,6 +1,7 @@
 (* C19 - Container objects refine their Python prototypes under any operation history.
    Only statements closed by [exact]; proofs live in Proofs/Container*.v; the model of the code
-   is Model/Container.v (as repaired by fixes F18b/c/e/f/g), the prototypes are Spec/ListSpec.v.
+   is Model/Container.v (the code at /repo HEAD: repairs F18b/c/e/f/g committed, encoders read-only for
+   unassigned OPTIONAL/DEFAULT components), the prototypes are Spec/ListSpec.v.
 
    Reading guide.  [conc]/[rabs]/[cabs] read a concrete state as a prototype state.  A history is
    well-formed ([*_wf_hist]) when every operation is, in the prototype state it meets, a list-style /
